@@ -311,7 +311,16 @@ pub fn set_global_clock(v: Option<(i64, u32)>) {
     g.as_mut().unwrap().clock = v;
 }
 
-fn hook_note(_l: &'static str, _v: u64) {}
+static NOTES: Mutex<Vec<(&'static str, u64)>> = Mutex::new(Vec::new());
+
+fn hook_note(l: &'static str, v: u64) {
+    NOTES.lock().unwrap_or_else(|e| e.into_inner()).push((l, v));
+}
+
+/// Observation-only notes the code under test left through `__verif::note` (label, value).
+pub fn take_notes() -> Vec<(&'static str, u64)> {
+    std::mem::take(&mut *NOTES.lock().unwrap_or_else(|e| e.into_inner()))
+}
 
 static HOOKS: tracing_core::__verif::Hooks = tracing_core::__verif::Hooks {
     point: hook_point,
